@@ -80,6 +80,14 @@ CLAIMED = {
              "Holds for every shape, orientation and tilt range; floating-point ties on a plane are not decided.",
         technique="parity-split symbolic evaluation of grid recipes, frame/scale typing by abstract interpretation, reaching definitions on the CFG",
         ref="5 C08"),
+    "C09": dict(
+        text="Structural rules: every average is mean(axis=0) of the loader's own full stack (single, batch via the shared base method, group per "
+             "loader under its key); a small boolean-mask domain evaluates random_splitter and proves the two returned masks are In(S) / NotIn(S) of "
+             "the same index set; both half-averages index one stack with those two masks; an RNG-discipline rule (package-wide) proves randomness "
+             "flows only from the seed argument through default_rng; the one-shot-iterable rule covers derived groups. Floating-point identity "
+             "across chunkings is not decided.",
+        technique="syntax/dataflow rules on ast, boolean-mask abstract evaluation, package-wide RNG discipline rule",
+        ref="5 C09"),
 }
 
 NOT_APPLICABLE = {
